@@ -127,18 +127,31 @@ def run(coro_fn, *, patch_time=True, max_vtime: float | None = None):
     asyncio.set_event_loop(loop)
     saved = []
     if patch_time:
-        import bellows.ash
-        import bellows.ezsp.protocol
+        import sys
+        import time as _time
 
+        import bellows.ash  # noqa: F401 - make sure the modules that measure time are loaded
+        import bellows.ezsp.protocol  # noqa: F401
+
+        # Whatever a bellows module uses to read the clock - the `time` module itself or functions imported
+        # from it - follows virtual time.  Nothing is assumed about which modules do so or under what name.
         clock = VClock(loop)
-        for mod in (bellows.ash, bellows.ezsp.protocol):
-            saved.append((mod, mod.time))
-            mod.time = clock
+        fns = {id(_time.monotonic): clock.monotonic, id(_time.time): clock.time, id(_time.perf_counter): clock.monotonic}
+        for mname, mod in list(sys.modules.items()):
+            if mod is None or not (mname == "bellows" or mname.startswith("bellows.")):
+                continue
+            for attr, val in list(vars(mod).items()):
+                if val is _time:
+                    saved.append((mod, attr, val))
+                    setattr(mod, attr, clock)
+                elif callable(val) and id(val) in fns and getattr(val, "__module__", None) == "time":
+                    saved.append((mod, attr, val))
+                    setattr(mod, attr, fns[id(val)])
     try:
         return loop.run_until_complete(coro_fn(loop))
     finally:
-        for mod, orig in saved:
-            mod.time = orig
+        for mod, attr, orig in saved:
+            setattr(mod, attr, orig)
         try:
             # cancel whatever is left so that nothing leaks between cases
             pending = [t for t in asyncio.all_tasks(loop) if not t.done()]
